@@ -56,7 +56,7 @@ pub struct MObj {
     pub box_addr: usize,
     pub box_size: usize,
     pub box_live: bool,
-    pub t: [Option<u32>; NT],
+    pub t: [Option<u32>; NTM],
     pub h: [Option<u32>; NH],
     pub w: [WT; NW],
     pub fin_count: u32,
@@ -93,7 +93,7 @@ impl MObj {
             box_addr: 0,
             box_size: 0,
             box_live: false,
-            t: [None; NT],
+            t: [None; NTM],
             h: [None; NH],
             w: [WT::None; NW],
             fin_count: 0,
@@ -208,7 +208,7 @@ impl Model {
             }
         }
         for o in &self.objs {
-            let n = o.t.iter().chain(o.h.iter()).filter(|s| **s == Some(id)).count() as u32;
+            let n = o.t[..NT].iter().chain(o.h.iter()).filter(|s| **s == Some(id)).count() as u32;
             if n > 0 {
                 if o.owns_slots() {
                     min += n;
@@ -216,6 +216,11 @@ impl Model {
                 } else if o.maybe_owns_slots() {
                     max += n;
                 }
+            }
+            // the ManuallyDrop slot is never released by its owner's drop glue: the handle outlives the owner
+            if o.t[NT] == Some(id) && (o.owns_slots() || o.val == Val::Dropped) {
+                min += 1;
+                max += 1;
             }
             for a in &o.actions {
                 if !a.done && a.cap == Some(id) {
@@ -333,6 +338,11 @@ impl Model {
                             // exists until its closure state is gone (the action ran or was dropped), even if the owner's
                             // value has been dropped meanwhile (the action may be running right now)
                             if o.actions.iter().any(|a| !a.done && a.cap == Some(x)) && (alive.contains(&o.id) || o.val != Val::Alive) {
+                                bad = true;
+                                break;
+                            }
+                            // a handle left in the ManuallyDrop slot of a dead owner is leaked: an external holder for good
+                            if o.val == Val::Dropped && o.t[NT] == Some(x) {
                                 bad = true;
                                 break;
                             }
